@@ -22,6 +22,7 @@ import (
 	"strconv"
 	"strings"
 	"sync"
+	"sync/atomic"
 	"time"
 
 	"bsim/minimise"
@@ -34,6 +35,7 @@ var verifDir = envOr("BSIM_VERIF", "/verif")
 
 var raceDir string
 var raceOnce sync.Once
+var stopEarly atomic.Bool
 
 // raceEnv tells a -race child process where to write its reports (one file per pid).
 func raceEnv() []string {
@@ -97,7 +99,23 @@ func main() {
 	}
 }
 
+// hangWatchdog: a run normally takes milliseconds. If one does not finish within
+// 40 s of real time something inside the bubble is blocked in a way the scheduler
+// cannot see (a goroutine waiting on a sync.Mutex is not "durably blocked" for
+// synctest, so synctest.Wait never returns). Dump every stack and die; the parent
+// decides from the dump whether a library goroutine is the one that hangs.
+func hangWatchdog() *time.Timer {
+	return time.AfterFunc(40*time.Second, func() {
+		buf := make([]byte, 1<<20)
+		n := runtime.Stack(buf, true)
+		fmt.Fprintf(os.Stderr, "BSIM-HANG: run did not finish in 40 s of real time\n%s\n", buf[:n])
+		os.Exit(3)
+	})
+}
+
 func runPlan(p *vm.Plan, trace bool) *vm.Result {
+	wd := hangWatchdog()
+	defer wd.Stop()
 	spec := props.Registry[p.Property]
 	if spec == nil {
 		return &vm.Result{Internal: "unknown property " + p.Property}
@@ -174,6 +192,14 @@ func isolated(p *vm.Plan, trace bool) *vm.Result {
 
 func deathResult(p *vm.Plan, stderr string) *vm.Result {
 	prop := p.Property
+	if strings.Contains(stderr, "BSIM-HANG") {
+		if sig, detail, lib := hangSig(stderr); lib {
+			// a library goroutine waits forever on a lock: C11's "no goroutine stays blocked forever"
+			return &vm.Result{Run: p.Run, PlanHash: p.Hash(), Violations: []vm.Violation{{Prop: "C11", Invariant: "stranded-goroutine", Sig: sig, Detail: detail}}}
+		} else {
+			return &vm.Result{Run: p.Run, PlanHash: p.Hash(), Internal: "watchdog: a run hung without any library goroutine waiting on a lock:\n" + detail}
+		}
+	}
 	sig, detail := deathSig(stderr)
 	if strings.HasPrefix(sig, "process death: :") {
 		// the dying goroutine has no library frame: the harness itself crashed
@@ -191,6 +217,46 @@ func deathProp(prop string, p *vm.Plan) string {
 		}
 	}
 	return prop
+}
+
+// hangSig inspects a BSIM-HANG dump: a goroutine with a frame in the library's
+// datalog package that waits on a lock (or anything else) is what keeps the bubble busy.
+func hangSig(stderr string) (string, string, bool) {
+	i := strings.Index(stderr, "BSIM-HANG")
+	if i < 0 {
+		return "", "", false
+	}
+	dump := stderr[i:]
+	for _, g := range strings.Split(dump, "\n\n") {
+		if !strings.Contains(g, "biscuit-go/v2/") || strings.Contains(g, "bsim/cmd/bsim.hangWatchdog") {
+			continue
+		}
+		lines := strings.Split(g, "\n")
+		state := lines[0]
+		if !(strings.Contains(state, "sync.") || strings.Contains(state, "semacquire") || strings.Contains(state, "Mutex") || strings.Contains(state, "RWMutex") || strings.Contains(state, "WaitGroup") || strings.Contains(state, "Cond")) {
+			continue
+		}
+		frame := ""
+		for _, ln := range lines[1:] {
+			if strings.Contains(ln, "biscuit-go/v2/") && !strings.HasPrefix(ln, "\t") && !strings.HasPrefix(ln, "created by") {
+				frame = ln
+				if j := strings.LastIndex(frame, "("); j > 0 {
+					frame = frame[:j]
+				}
+				frame = strings.TrimPrefix(frame, "github.com/biscuit-auth/biscuit-go/v2")
+				break
+			}
+		}
+		st := state
+		if a := strings.Index(st, "["); a >= 0 {
+			st = st[a:]
+		}
+		if c := strings.Index(st, ","); c > 0 {
+			st = st[:c] + "]"
+		}
+		return "stranded: " + frame + " blocked forever " + st, tail(g, 1200), true
+	}
+	return "", tail(dump, 1500), false
 }
 
 func deathSig(stderr string) (string, string) {
@@ -537,6 +603,9 @@ func cmdCheck(args []string) int {
 			defer wg.Done()
 			from := w
 			for from < runs {
+				if stopEarly.Load() {
+					return
+				}
 				if time.Now().After(deadline) {
 					mu.Lock()
 					watchdog = true
@@ -590,6 +659,13 @@ func cmdCheck(args []string) int {
 				mu.Lock()
 				total.Evals++
 				total.Probes["worker_process_death"]++
+				if total.Probes["worker_process_death"] > 24 {
+					// the tree under test kills or hangs workers again and again: enough has been seen,
+					// report what was found instead of paying a process restart (or a 40 s hang) per run
+					mu.Unlock()
+					stopEarly.Store(true)
+					mu.Lock()
+				}
 				v := res.Violations[0]
 				k := v.Key() + "|" + v.Sig
 				f := founds[k]
@@ -664,7 +740,8 @@ func cmdCheck(args []string) int {
 		if f.Plan != nil {
 			rf.Run = f.Plan.Run
 			rf.Original = len(f.Plan.Ops)
-			if minimised < 4 {
+			// a hang costs the watchdog's 40 s per execution: such plans are reported unminimised
+			if minimised < 4 && !strings.Contains(f.V.Sig, "blocked forever") {
 				minimised++
 				pinSig := ""
 				if f.V.Invariant == "process-death" || f.V.Invariant == "panic" {
